@@ -58,6 +58,8 @@ type Exec struct {
 	intr    map[string]intrinsic
 	pools   map[*V][]V // sync.Pool models
 	slotIDs map[*V]int64
+	gobTab  []gobItem // encoding/gob FIFO model (per path)
+	csvTab  [][]V     // encoding/csv record FIFO model (per path)
 
 	// if-conversion
 	ipdomCache map[*ssa.Function]map[*ssa.BasicBlock]*ssa.BasicBlock
@@ -103,12 +105,24 @@ func (ex *Exec) global(g *ssa.Global) *V {
 	}
 	ex.ensureInit(g.Pkg)
 	if p, ok := ex.globals[g]; ok {
+		ex.ioSentinel(g, p)
 		return p
 	}
+	defer func() { ex.ioSentinel(g, ex.globals[g]) }()
 	p := new(V)
 	*p = ex.zero(mustDeref(g.Type()))
 	ex.globals[g] = p
 	return p
+}
+
+// ioErrors: package io's initialiser is not run (skipInitPkgs); its sentinel errors are created on first use so that
+// comparisons like err == io.EOF are not comparisons with nil.
+func (ex *Exec) ioSentinel(g *ssa.Global, p *V) {
+	if g.Pkg != nil && g.Pkg.Pkg.Path() == "io" && types.Identical(mustDeref(g.Type()), types.Universe.Lookup("error").Type()) {
+		if x, ok := (*p).(Iface); ok && x.T == nil {
+			*p = ex.mkError(g.Name())
+		}
+	}
 }
 
 func mustDeref(t types.Type) types.Type {
@@ -1212,7 +1226,7 @@ func (ex *Exec) implements(t types.Type, it *types.Interface) bool {
 }
 
 var boundaryPkgs = []string{"encoding/gob", "fmt", "reflect", "sync", "runtime", "os", "regexp", "gonum.org/", "github.com/apache/arrow",
-	"github.com/gogo/protobuf", "github.com/golang/protobuf", "google.golang.org/protobuf", "github.com/google/flatbuffers", "math/rand", "time",
+	"github.com/gogo/protobuf", "github.com/golang/protobuf", "google.golang.org/protobuf", "math/rand", "time",
 	"internal/", "syscall", "log", "io", "bufio", "encoding/csv", "encoding/binary", "testing", "github.com/pkg/errors", "unsafe"}
 
 func isBoundaryPkg(path string) bool {
